@@ -2,6 +2,7 @@ import Gallia.Proofs.Lemmas.UdsReqLayout
 /-
   C01: construction with range checks (`mk`) against the declarative range predicate `InRange`
 -/
+set_option linter.unusedSimpArgs false
 namespace Gallia.UdsReq
 open Gallia
 
